@@ -436,7 +436,7 @@ def _reuses_instance(prog) -> bool:
 
 
 def api_entry_points(chk: Check, mc: List[Tuple[List[Dict[str, Any]], Dict[int, Any]]], progs, exp, *, n_sessions: int,
-                     mc_every: int) -> int:
+                     mc_every: int, n_random_api: int = 10 ** 9) -> int:
     """Renders requested through the Python API (see the module docstring).  Returns TLC states used."""
     rnd = random.Random(chk.seed * 1000003 + 1414)
     kept = ("inst", "resp", "view")
@@ -462,6 +462,7 @@ def api_entry_points(chk: Check, mc: List[Tuple[List[Dict[str, Any]], Dict[int, 
             chk.add("mc_pages_replayed_through_python_api", len(sel))
     # (2) the random programs again, eligible nodes through the API (django mode: some without a context = `only`)
     va = [api_variant(p, 3 * 10 ** 6 + p["id"], rnd) for p in progs if not exp[p["id"]]["zone"] and api_nodes(p["page"])]
+    va = va[:n_random_api]
     # (3) caller sessions: the same class rendered 2-3 times by one kept instance / one view
     va += session_programs(rnd, n_sessions, 5 * 10 ** 6)
     vexp = djc.oracle(va)
@@ -480,7 +481,8 @@ def api_entry_points(chk: Check, mc: List[Tuple[List[Dict[str, Any]], Dict[int, 
 
 
 def body(chk: Check, *, mc_nodes: int, n_random: int, deep: int, chains_w: List[int], chains_r: List[int],
-         chains_wl: List[int] = (), chains_rl: List[int] = (), n_sessions: int = 0, mc_every: int = 4) -> None:
+         chains_wl: List[int] = (), chains_rl: List[int] = (), n_sessions: int = 0, mc_every: int = 4,
+         n_random_api: int = 10 ** 9) -> None:
     states = trans = 0
     mc = []
     for mode in P.MODES:
@@ -502,7 +504,7 @@ def body(chk: Check, *, mc_nodes: int, n_random: int, deep: int, chains_w: List[
     chk.add("traces_validated_against_impl", len(progs) - st["zone"])
     chk.sample({"random_program": djc.brief(progs[0]), "expected_elems": exp[progs[0]["id"]]["elems"],
                 "expected_marks": exp[progs[0]["id"]]["marks"]}, limit=3)
-    states += api_entry_points(chk, mc, progs, exp, n_sessions=n_sessions, mc_every=mc_every)
+    states += api_entry_points(chk, mc, progs, exp, n_sessions=n_sessions, mc_every=mc_every, n_random_api=n_random_api)
     del mc
     deep_chains(chk, chains_w, chains_r, chains_wl, chains_rl)
     chk.add("states", states + djc.oracle.last_states)
@@ -515,7 +517,7 @@ def run(tier: str) -> int:
     chk = Check(PID, tier, "model_checking")
     if tier == "quick":
         body(chk, mc_nodes=3, n_random=1200, deep=3, chains_w=[60, 400, 1100], chains_r=[40, 120],
-             chains_wl=[1100, 1100], chains_rl=[120], n_sessions=400, mc_every=4)
+             chains_wl=[1100, 1100], chains_rl=[120], n_sessions=250, mc_every=6, n_random_api=250)
     else:
         body(chk, mc_nodes=3, n_random=8000, deep=4, chains_w=[500, 2000], chains_r=[150, 300],
              chains_wl=[2000, 2000], chains_rl=[300], n_sessions=1500, mc_every=1)
